@@ -37,7 +37,7 @@ def mutate(raw, rng):
         chunks = iffparse.parse(raw)
     except iffparse.Malformed:
         return None
-    kind = rng.choice(("cval", "cval", "cval", "chdt", "slnk", "slnk-free-last", "slnk2", "pdta", "cmid-param", "extra-cvals"))
+    kind = rng.choice(("cval", "cval", "cval", "chdt", "slnk", "slnk-free-last", "slnk2", "pdta", "pdta-long", "cmid-param", "extra-cvals"))
     out = [[c[0], c[1]] for c in chunks]
     if kind == "cval":
         idx = [i for i, c in enumerate(out) if c[0] == b"CVAL"]
@@ -91,6 +91,13 @@ def mutate(raw, rng):
             return None
         i = rng.choice(idx)
         out[i][1] = out[i][1][:-4] + struct.pack("<i", -1)
+    elif kind == "pdta-long":
+        # a note block larger than the declared lines x tracks (a writer that keeps its allocated buffer)
+        idx = [i for i, c in enumerate(out) if c[0] == b"PDTA"]
+        if not idx:
+            return None
+        i = rng.choice(idx)
+        out[i][1] = out[i][1] + bytes(rng.randrange(256) for _ in range(8 * rng.randint(1, 12)))
     elif kind == "pdta":
         idx = [i for i, c in enumerate(out) if c[0] == b"PDTA" and len(c[1]) >= 8]
         if not idx:
@@ -149,6 +156,11 @@ def cycle(res, X, origin, desc):
     prev = None
     for n in range(1, 5):
         try:
+            monitors.PURITY_ENABLED = False      # (the ambient monitor inspects the object before every save)
+            try:
+                Y_first = o.read()           # before anything has looked at the loaded object
+            finally:
+                monitors.PURITY_ENABLED = True
             before = _snap(o)
             Y = o.read()
             after = _snap(o)
@@ -157,6 +169,10 @@ def cycle(res, X, origin, desc):
             res.violation(f"C05:save-fails:{workload.exc_key(e)}", f"{origin}: object loaded in cycle {n} cannot be saved: {e!r}", desc)
             return
         res.count("purity_evaluations")
+        if Y_first != Y:
+            res.violation(f"C05:two-saves-differ:{first_diff_chunk(Y_first, Y)}", f"{origin}: a save made right after loading and a save made after the object was inspected (read-only) "
+                                                                                  f"give different bytes ({len(Y_first)} vs {len(Y)})", desc)
+            return
         if before != after:
             d = snapshot.diff(before, after)
             res.violation(f"C05:impure-save:{snapshot.field_key(d[0][0]) if d else '?'}", f"{origin}: saving changed the object: {d[:2]}", desc)
@@ -246,6 +262,59 @@ def count_out_of_range(o):
     return n
 
 
+def export_orders(res, seed, shard, tier):
+    """Objects made through the API that nothing has looked at yet: module export, project save, clone, module export, inspection,
+    export - in whatever order, each kind of save gives the bytes it gave the first time."""
+    import rv.api as api
+    from rv.modules import MODULE_CLASSES
+    from .. import build as _build, gen
+    sp = spec.load()
+    types = sorted(T for T in sp if T != "Output")
+    rng = random.Random(seed * 1009 + shard)
+    for k, T in enumerate(types):
+        if (k + shard) % 4:
+            continue
+        for style in ("default", "generated"):
+            try:
+                if style == "default":
+                    m = MODULE_CLASSES[sp[T].mtype]()
+                else:
+                    r2 = random.Random(rng.randrange(2 ** 40))
+                    m = _build.build_module(gen.Gen(r2, tier).module(T, "project"), "project", r2, [])
+                p = api.Project()
+                p.attach_module(m)
+                other = p.new_module(api.m.Amplifier)
+                p.connect(m, other)
+            except Exception:
+                res.count("export_order_unusable")
+                continue
+            case = {"type": T, "style": style, "family": "export-orders"}
+            order = rng.choice((("synth", "project"), ("project", "synth"), ("synth", "clone"), ("clone", "project")))
+            seen = {}
+            monitors.PURITY_ENABLED = False      # (the ambient monitor would inspect the objects before the first save)
+            steps = list(order) + ["synth", "project", "inspect", "synth", "project", "clone"]
+            try:
+                for step in steps:
+                    if step == "inspect":
+                        _snap(p)
+                        snapshot.snap_synth(api.Synth(m))
+                        continue
+                    data = {"synth": lambda: api.Synth(m).read(), "project": p.read, "clone": lambda: api.Synth(m.clone()).read()}[step]()
+                    res.count("export_order_saves")
+                    kind = "synth" if step == "clone" and False else step
+                    if kind in seen and seen[kind] != data:
+                        res.violation(f"C05:two-saves-differ:{first_diff_chunk(seen[kind], data)}",
+                                      f"{T} ({style}): the '{kind}' save gives different bytes ({len(seen[kind])} vs {len(data)}) after the steps {steps[:steps.index(step) + 1]}", dict(case, steps=steps))
+                        break
+                    seen.setdefault(kind, data)
+            except Exception as e:
+                res.count("export_order_raised")
+                res.hist("export_order_raised_why", workload.exc_key(e))
+            monitors.PURITY_ENABLED = True
+            res.count("purity_evaluations")
+            res.count("export_order_cases")
+
+
 def run_shard(spec_, res):
     if spec_.get("part") == "soak":
         from .. import soak
@@ -327,8 +396,7 @@ def run_shard(spec_, res):
     if spec_["shard"] == 0 and tier == "thorough":
         from ._repo_suite import ambient_under_repo_tests
         ambient_under_repo_tests(res, PROPERTY, ["save_is_pure"])
-    if spec_["shard"] == 0:
-        pass
+    export_orders(res, spec_["seed"], spec_["shard"], tier)
 
 
 def replay(case, res):
